@@ -1138,7 +1138,12 @@ func (p *prover) atomFacts(key string, v ssa.Value) {
 			// idx < len(s) always (also for -1)
 			p.ge(p.lenOf(t.Call.Args[0]).add(newLin(1), -1), e)
 		case "builtin.copy":
+			// copy(dst, src) reports how many elements it copied: no more than either operand holds
 			p.fact(e)
+			if len(t.Call.Args) == 2 {
+				p.ge(p.lenOf(t.Call.Args[0]), e)
+				p.ge(p.lenOf(t.Call.Args[1]), e)
+			}
 		case "strings.Count":
 			p.fact(e)
 		case "builtin.min":
